@@ -1,4 +1,5 @@
 PROP = {
+    "ready": True,
     "harness": ["harness/C18.cpp"],
     # hexascii.c / hexascii_string.cpp / base64.cpp include only headers
     # (igris/compiler.h, igris/util/access.h, igris/buffer.h) and host libc.
